@@ -302,6 +302,8 @@ def assigned_names(stmts):
                 out.append((a.asname or a.name).split(".")[0])
         elif isinstance(n, ast.NamedExpr):
             tgt(n.target)
+        elif isinstance(n, (getattr(ast, "MatchAs", ()), getattr(ast, "MatchStar", ()))) and getattr(n, "name", None):
+            out.append(n.name)
         elif isinstance(n, ast.Expr) and isinstance(n.value, ast.Call) and isinstance(n.value.func, ast.Attribute) \
                 and isinstance(n.value.func.value, ast.Name) and n.value.func.attr in MUTATORS:
             out.append(n.value.func.value.id)
@@ -916,6 +918,52 @@ class Evaluator:
             out, t2 = self.block(st.orelse, out, ctx)
             t = replace_fall(t, t2) if t != FALL else t2
         return out, t
+
+    def s_Match(self, st, env, ctx):
+        """match / case over values, singletons, alternatives, class patterns without sub-patterns, captures and wildcards is the if / elif
+        chain it abbreviates; anything else is outside the idiom list."""
+        subj = st.subject
+
+        def cond(p):
+            """(test expression | None for 'always', [(name, value expression)] captures)"""
+            if isinstance(p, ast.MatchValue):
+                return ast.Compare(left=subj, ops=[ast.Eq()], comparators=[p.value]), []
+            if isinstance(p, ast.MatchSingleton):
+                return ast.Compare(left=subj, ops=[ast.Is()], comparators=[ast.Constant(value=p.value)]), []
+            if isinstance(p, ast.MatchOr):
+                parts = [cond(q) for q in p.patterns]
+                if any(c is None for c, _ in parts) or any(b for _, b in parts):
+                    raise AnalysisBroken(f"match statement at line {st.lineno}: alternative with wildcard / capture is outside the evaluator's idiom list")
+                return ast.BoolOp(op=ast.Or(), values=[c for c, _ in parts]), []
+            if isinstance(p, ast.MatchAs):
+                if p.pattern is None:
+                    return None, ([(p.name, subj)] if p.name else [])
+                c, b = cond(p.pattern)
+                return c, b + ([(p.name, subj)] if p.name else [])
+            if isinstance(p, ast.MatchClass) and not p.patterns and not p.kwd_patterns:
+                return ast.Call(func=ast.Name(id="isinstance", ctx=ast.Load()), args=[subj, p.cls], keywords=[]), []
+            raise AnalysisBroken(f"match statement at line {st.lineno}: pattern {type(p).__name__} is outside the evaluator's idiom list")
+        chain = None
+        for case in reversed(st.cases):
+            c, binds = cond(case.pattern)
+            body = [ast.Assign(targets=[ast.Name(id=n, ctx=ast.Store())], value=v) for n, v in binds] + list(case.body)
+            tests = [x for x in (c, case.guard) if x is not None]
+            if binds and case.guard is not None:
+                raise AnalysisBroken(f"match statement at line {st.lineno}: guard on a capturing pattern is outside the evaluator's idiom list")
+            if not tests:
+                node = body if chain is None else body      # irrefutable case: the remaining cases are unreachable
+                chain = ("body", node)
+                continue
+            test = tests[0] if len(tests) == 1 else ast.BoolOp(op=ast.And(), values=tests)
+            orelse = [] if chain is None else (chain[1] if chain[0] == "body" else [chain[1]])
+            chain = ("if", ast.If(test=test, body=body, orelse=orelse))
+        if chain is None:
+            return env, FALL
+        nodes = chain[1] if chain[0] == "body" else [chain[1]]
+        for n in nodes:
+            ast.copy_location(n, st)
+            ast.fix_missing_locations(n)
+        return self.block(nodes, env, ctx)
 
     def s_For(self, st, env, ctx):
         it = self.ev(st.iter, env, ctx)
